@@ -2,6 +2,21 @@
 from .. import enginecheck as ec
 
 
+def liveness(run):
+    """Termination on unbounded input as a temporal property: cyclic (endless) iterator, weak fairness, no state constraint."""
+    import os
+    from .. import tlcrun, core
+    d = tlcrun.new_scratch('c02live')
+    cfg = ec.engine_cfg(os.path.join(d, 'live.cfg'), 'Q_C02live', 'R_live', maxA=2, emit=False, invariants=['Protocol'], properties=['Terminates'], cyclic=True, spec='FairSpec')
+    res = tlcrun.run_tlc('MC_Engine', cfg, timeout=3600)
+    run.add_tlc('MC_Engine:liveness-cyclic-input', res)
+    mcfg = ec.engine_cfg(os.path.join(d, 'livemut.cfg'), 'Q_C02live', 'R_live', maxA=2, emit=False, mut='no_stop_on_false', invariants=[], properties=['Terminates'], cyclic=True, spec='FairSpec')
+    mres = tlcrun.run_tlc('MC_Engine', mcfg, timeout=3600, expect_violation=True)
+    if mres.violation is None:
+        core.machinery_failure('liveness: the mutant that never sets stop_flag was not rejected')
+    run.notes.setdefault('spec_mutants_rejected', []).append('RbqlEngine/no_stop_on_false (cyclic input, Terminates) -> ' + mres.violation)
+
+
 def check(run):
     quick = run.tier == 'quick'
     run.rule = ('case = (query over {ORDER BY 1-2 keys asc/desc} x {none, DISTINCT, DISTINCT COUNT} x {none, TOP/LIMIT n} x {WHERE, JOIN, UNNEST}, table with duplicate keys) '
@@ -10,7 +25,9 @@ def check(run):
     run.assumptions = ['sort keys are non-None strings (None keys raise inside sorted(): observation I2)', 'weak reading of "stops pulling": stops at the record yielding the first candidate beyond the bound (DESIGN C02)']
     for mut in ('top_gt', 'desc_reverse_flag', 'uniq_keeps_last', 'no_stop_on_false'):
         ec.spec_mutant(run, 'Q_C02mut', 'R_2x2', mut, maxA=3)
-    ec.run_family(run, 'C02-main', 'Q_C02ok', 'R_2x2', maxA=2 if quick else 4)
+    liveness(run)
+    ec.run_family(run, 'C02-unbounded-replay', 'Q_C02live', 'R_live', maxA=3 if quick else 4, opts={'endless': True})
+    ec.run_family(run, 'C02-main', 'Q_C02ok', 'R_2x2', maxA=2 if quick else 4, opts={'endless': True})
     if quick:
         ec.run_family(run, 'C02-3rec', 'Q_C02mut', 'R_2x2', maxA=4)
     ec.run_family(run, 'C02-join', 'Q_C02joinok', 'R_2x2', recsB='R_2x2', maxA=2 if quick else 2, maxB=2 if quick else 3)
